@@ -45,6 +45,12 @@ def run(ctx) -> None:
     check_facets(ctx)
     check_occurs(ctx)
     check_props(ctx)
+    ctx.rule("STACK-ORDER", "constraints of constrained-primitive chains and ancestors are stacked parents-first (shared with C12/C15)", floor=2)
+    from ..rules import stack
+    for m in ctx.p.modules.values():
+        if m.name.startswith(f"{PKG}.infer_for_schema"):
+            for f in m.functions.values():
+                stack.check_stack_order(ctx, f, "STACK-ORDER")
 
 
 def check_src(ctx) -> None:
